@@ -89,4 +89,18 @@ theorem idsNonzero_of_charZero [CharZero F] (S : Finset ℕ) (h : ∀ k ∈ S, 0
   have : ((k : ℕ) : F) = 0 := h0
   exact absurd (Nat.cast_eq_zero.mp this) (Nat.pos_iff_ne_zero.mp (h k hk))
 
+/-! ### objects for the non-vacuity examples of `Props/C08.lean`, `Props/C11.lean` -/
+
+/-- 2-of-3 split of the secret 3 with polynomial `3 + 2X`: shares 5, 7, 9. -/
+noncomputable def pEx : ℚ[X] := C 3 + C 2 * X
+
+theorem pEx_deg : pEx.degree < (2 : ℕ) := by
+  unfold pEx
+  refine lt_of_le_of_lt (degree_add_le _ _) ?_
+  refine max_lt (lt_of_le_of_lt degree_C_le (by norm_num)) ?_
+  refine lt_of_le_of_lt (degree_C_mul_X_le _) (by norm_num)
+
+theorem sEx_ok (S : Finset ℕ) (h : ∀ k ∈ S, 0 < k) : IdsDistinct ℚ S ∧ IdsNonzero ℚ S :=
+  ⟨idsDistinct_of_charZero S, idsNonzero_of_charZero S h⟩
+
 end CharonV.Tbls
